@@ -4165,7 +4165,8 @@ class EntityMeta(type):
             if obj._discriminator_ is not None:
                 if obj._subclasses_:
                     cls = obj.__class__
-                    if not issubclass(entity, cls) and not issubclass(cls, entity):
+                    if not issubclass(entity, cls) and not issubclass(cls, entity) \
+                            and not (entity._subclasses_ & cls._subclasses_):  # can have a common subclass
                         throw(ObjectNotFound, entity, pkval)
                     seeds = cache.seeds[entity._pk_attrs_]
                     if obj in seeds: obj._load_()
